@@ -123,6 +123,12 @@ class NVSubroutineTranspiler(SubroutineTranspiler):
 
         return gates
 
+    @staticmethod
+    def _num_real_instructions(commands: List[NetQASMInstruction]) -> int:
+        """Debug markers are not part of the (serialized) subroutine, so they do not
+        count when computing line numbers."""
+        return sum(1 for cmd in commands if not isinstance(cmd, DebugInstruction))
+
     def transpile(self) -> Subroutine:
         """
         Very simple transpiling pass: iterate over all instructions once and rewrite them in-line.
@@ -157,7 +163,7 @@ class NVSubroutineTranspiler(SubroutineTranspiler):
                 if isinstance(op, Register):
                     self._used_registers.update([op])
 
-            index_changes[i] = len(new_commands)
+            index_changes[i] = self._num_real_instructions(new_commands)
 
             if isinstance(instr, core.SingleQubitInstruction) or isinstance(
                 instr, core.RotationInstruction
@@ -182,7 +188,7 @@ class NVSubroutineTranspiler(SubroutineTranspiler):
                     # Since this label is now removed, we should put a "no-op"
                     # instruction there so there is something to jump to.
                     add_no_op_at_end = True
-                    instr.line = Immediate(len(new_commands))
+                    instr.line = Immediate(self._num_real_instructions(new_commands))
                 else:
                     instr.line = Immediate(index_changes[instr.line.value])
 
